@@ -636,7 +636,7 @@ def analyse_core(repo: Path):
 # exactly the text that is there now; a change of any of them breaks the pin obligation (Props/T14 T19 T20) and sends the check searching
 PINNED = {
     "models.py": ["LabelEncoder", "EarlyStopping", "BaseOptimizationConfig", "Agent", "ContinuousMultiVariable", "DiscreteMultiVariable", "PermutationVariable",
-                  "MultiObjectiveVariable", "BinaryVariable", "Task.__init__", "Task.validate_objective_weights", "Task.empty_solution"],
+                  "MultiObjectiveVariable", "BinaryVariable", "Task.validate_objective_weights", "Task.empty_solution"],
     "hypertuner.py": ["ParameterGrid.__init__", "ParameterGrid.__getitem__", "HyperTuner"],
     "multitask.py": ["Multitask.__set_keyword_arguments__", "Multitask.export_results"],
     "enums.py": ["ModeSolver", "TaskType", "ExportType"],
